@@ -153,3 +153,18 @@ Fixpoint coms_sorted (l : list commodity) : Prop :=
 
 Definition balance_render_cfg (cfg : balance_cfg) : render_cfg :=
   mkRenderCfg (bc_valuation cfg) (bc_details cfg) (bc_alpha cfg) (bc_diff cfg).
+
+(* the account rows the independent computation lists, with their full paths, in the order of
+   ledger_csv: (A/L rows, E/I/E rows).  Used by the check to name a row that is missing from the
+   binary's report or that no ledger row explains. *)
+Definition ledger_row_paths (cfg : balance_cfg) (ds : list directive) : option (list account * list account) :=
+  match bc_valuation cfg with
+  | Some _ => None
+  | None =>
+    match new_partition (clip (mkPeriod (bc_from cfg) (bc_to cfg)) (journal_period ds)) (bc_interval cfg) (bc_last cfg) with
+    | POk part =>
+      let es := ledger_entries cfg ds part in
+      Some (all_rows (filter is_AL_entry es), all_rows (filter (fun e => negb (is_AL_entry e)) es))
+    | _ => None
+    end
+  end.
